@@ -918,6 +918,10 @@ func propTable() map[string]*PropSpec {
 		deep.Params["weights"] = 1
 		deep.RequireReach = []string{"C01.two_commits"}
 		q = append(q, deep)
+		// prefix 6: a node locked twice must vote with its latest lock (no forgery anywhere), then one symbolic COMMIT
+		locks := mk(2, 6, 0, 1, 2, 0, 0, 3)
+		locks.RequireReach = []string{"C01.two_commits"}
+		q = append(q, locks)
 		lossy5 := mk(2, 5, 0, 1, 5, 0, 0, 3)
 		lossy5.Name += "/byzfollow=1"
 		lossy5.Params["byzfollow"] = 1
